@@ -113,3 +113,20 @@ Definition incl_b (c : clone) (pairs : list (name * name)) : bool :=
                     | Some a, Some b => anc (st c) a b
                     | _, _ => true
                     end) pairs.
+
+(* the merges add_to_queue issues, for comparison with the recorded operations:
+   q0 <- [w0]; q_i <- strategy (w_i, qint_{i-1}) *)
+Fixpoint add_to_queue_ops_rest (sg : list strategy) (prev_qint : name) (rest : list (name * name * name))
+  : list mergeop :=
+  match rest with
+  | [] => []
+  | (q, w, qint) :: more =>
+      let s := match sg with x :: _ => x | [] => Octopus end in
+      strategy_ops s q w prev_qint ++ add_to_queue_ops_rest (tl sg) qint more
+  end.
+
+Definition add_to_queue_ops (sg : list strategy) (triples : list (name * name * name)) : list mergeop :=
+  match triples with
+  | [] => []
+  | (q0, w0, qint0) :: rest => mkOp q0 [w0] :: add_to_queue_ops_rest sg qint0 rest
+  end.
